@@ -2,6 +2,7 @@ import HC.Conn.Shell
 import HC.Extracted.Runtime
 import HC.Proto.H11
 import HC.Proto.H2SendEvents
+import HC.Extracted.AppExit
 /-!
 # C16 — protocol behaviour does not depend on the worker class
 
@@ -20,6 +21,9 @@ primitives of `worker_context.py`.  The theorems:
   - trio's replace-on-`clear`: an event is only ever cleared while no *other* task waits on it
     (`h2_clear_discipline` over every op of the HTTP/2 send model; h11's `can_read` is cleared by its only waiter);
     `event_replace_eq_clear` shows that under this discipline a replaced event and a cleared one wake the same waiters.
+* the two task groups (`task_group.py::_handle`, shapes EXTRACTED from both files) treat every way an application can end
+  that exists in both runtimes alike: `task_groups_agree`; trio's second `send(None)` for an exception group is silent:
+  `http_second_signal_silent`, `ws_second_signal_silent`.
 -/
 namespace HC.Props.C16
 open HC HC.Conn.Shell
@@ -285,5 +289,74 @@ theorem h2_clear_discipline (s s' : HC.Proto.H2Send.St) (o : HC.Proto.H2Send.Op)
     (∀ i, o = .pushWake i → (s.str i).pusher = .inPush ∧ (s'.str i).pusher = .idle) ∧
     (o = .wake → s.task = .parked ∧ s'.task = .running) :=
   HC.Proto.H2SendEvents.clear_has_no_foreign_waiter s s' o h
+
+/-! ## the task groups -/
+
+open HC.Stream.AppExit HC.Extracted.AppExit in
+/-- the ways an application can end that are the same event in both runtimes (a group holding a cancellation is how a trio
+    nursery inside the application reports being cancelled; asyncio delivers a bare `CancelledError` there) -/
+def commonExit : HC.Stream.AppExit.Exit → Bool
+  | .returned | .exception | .cancelled | .groupErrors => true
+  | _ => false
+
+open HC.Stream.AppExit HC.Extracted.AppExit in
+/-- **The two `_handle` wrappers (extracted from `asyncio/task_group.py` and `trio/task_group.py`) agree** on every common exit:
+    the failure is logged the same number of times, the log comes before completion is signalled, completion IS signalled,
+    and the same exits leave `_handle` by an exception.  (They differ in how often `send(None)` is called - trio signals in
+    its `except BaseExceptionGroup` clause and again in `finally` - which the next two theorems show to be invisible.) -/
+theorem task_groups_agree (e : Exit) (h : commonExit e = true) :
+    logs (run asyncioHandle e) = logs (run trioHandle e) ∧
+    (run asyncioHandle e).2 = (run trioHandle e).2 ∧
+    0 < signals (run asyncioHandle e) ∧ 0 < signals (run trioHandle e) ∧
+    (run asyncioHandle e).1.takeWhile (· != .sendNone) = (run trioHandle e).1.takeWhile (· != .sendNone) := by
+  cases e <;> first | decide | (simp [commonExit] at h)
+
+open HC.Stream.AppExit HC.Extracted.AppExit in
+/-- sharpness: on the exits that are NOT common the extracted wrappers do differ (a mixed group is logged by trio only), so
+    the hypothesis of `task_groups_agree` is what the claim rests on -/
+example : logs (run asyncioHandle .groupMixed) ≠ logs (run trioHandle .groupMixed) := by decide
+
+open HC.Stream in
+/-- `HTTPStream.app_send(None)`: the first completion signal always hands `StreamClosed` to the protocol, the protocol answers
+    with `stream.handle(StreamClosed)`, and from then on a further `app_send(None)` does nothing at all -/
+theorem http_second_signal_silent (s : Http.S) (hc : s.closed = false) :
+    Http.Ev.streamClosed ∈ (Http.appSend s none).2.1 ∧
+    (let s2 := (Http.handle (Http.appSend s none).1 .streamClosed).1
+     Http.appSend s2 none = (s2, [], none)) := by
+  have hcl : (Http.handle (Http.appSend s none).1 .streamClosed).1.closed = true := by
+    unfold Http.handle
+    by_cases h : (Http.appSend s none).1.closed <;> simp [h]
+  constructor
+  · simp only [Http.appSend, hc]
+    by_cases h : s.st = .request <;> simp [h]
+  · simp only
+    generalize (Http.handle (Http.appSend s none).1 .streamClosed).1 = s2 at hcl
+    simp [Http.appSend, hcl]
+
+open HC.Stream in
+/-- the same for `WSStream.app_send(None)`: unless the 1011 close frame could not be produced (the exception then leaves
+    `send(None)`), the first signal emits `StreamClosed`; once the protocol has answered it a second signal is silent -/
+theorem ws_second_signal_silent (token : Bytes → Bytes) (ext : Option Bytes) (s : Ws.S) (hc : s.closed = false)
+    (hok : (Ws.appSend token ext s none).2.2 = none) :
+    Ws.Ev.streamClosed ∈ (Ws.appSend token ext s none).2.1 ∧
+    (let s2 := (Ws.handle (Ws.appSend token ext s none).1 .streamClosed).1
+     Ws.appSend token ext s2 none = (s2, [], none)) := by
+  have hcl : (Ws.handle (Ws.appSend token ext s none).1 .streamClosed).1.closed = true := by
+    unfold Ws.handle
+    by_cases h : (Ws.appSend token ext s none).1.closed <;> simp [h]
+  constructor
+  · revert hok
+    simp only [Ws.appSend, hc]
+    by_cases h1 : s.st = .handshake
+    · simp [h1, Ws.errorResponse]
+    · by_cases h2 : s.st = .connected
+      · simp only [h2]
+        generalize Ws.sendWs s (.close 1011) = r
+        obtain ⟨s1, e, err⟩ := r
+        cases err <;> simp
+      · simp [h1, h2]
+  · simp only
+    generalize (Ws.handle (Ws.appSend token ext s none).1 .streamClosed).1 = s2 at hcl
+    simp [Ws.appSend, hcl]
 
 end HC.Props.C16
